@@ -654,26 +654,131 @@ theorem rule_vars_subset (p : Program) (r : Rule) (hr : r ∈ p) : ∀ x ∈ r.v
   rw [mem_foldl_ext]
   exact Or.inr ⟨r, hr, hx⟩
 
-theorem chooseFreshGlobals_spec (p : Program) (hp : globalsPanic p = false) :
+theorem vname_inj {a b : Nat} (h : "V" ++ toString a = "V" ++ toString b) : a = b := by
+  simp only [String.append_right_inj] at h
+  exact Nat.repr_injective h
+
+theorem findFreeGlobal_spec (occ : List String) :
+    ∀ (fuel k : Nat), (∃ j, k ≤ j ∧ j < k + fuel ∧ ("V" ++ toString j) ∉ occ) →
+      ("V" ++ toString (findFreeGlobal occ fuel k)) ∉ occ := by
+  intro fuel
+  induction fuel with
+  | zero => intro k ⟨j, h1, h2, _⟩; omega
+  | succ fuel ih =>
+    intro k ⟨j, h1, h2, h3⟩
+    simp only [findFreeGlobal]
+    split
+    · rename_i hmem
+      have hne : j ≠ k := fun e => h3 (e ▸ hmem)
+      exact ih (k + 1) ⟨j, by omega, by omega, h3⟩
+    · rename_i hmem
+      exact hmem
+
+theorem exists_free_global (occ : List String) (k : Nat) :
+    ∃ j, k ≤ j ∧ j < k + (occ.length + 1) ∧ ("V" ++ toString j) ∉ occ := by
+  by_cases h : ∃ j, k ≤ j ∧ j < k + (occ.length + 1) ∧ ("V" ++ toString j) ∉ occ
+  · exact h
+  · exfalso
+    have hall : ∀ j, k ≤ j → j < k + (occ.length + 1) → ("V" ++ toString j) ∈ occ := by
+      intro j h1 h2
+      exact Classical.not_not.mp fun hn => h ⟨j, h1, h2, hn⟩
+    let L := (List.range' k (occ.length + 1)).map fun j => "V" ++ toString j
+    have hnd : L.Nodup := by
+      have hr : (List.range' k (occ.length + 1)).Nodup := List.nodup_range'
+      exact List.Pairwise.map _ (fun a b hab hc => hab (vname_inj hc)) hr
+    have hsub : L ⊆ occ := by
+      intro x hx
+      simp only [L, List.mem_map, List.mem_range'_1] at hx
+      obtain ⟨j, ⟨h1, h2⟩, rfl⟩ := hx
+      exact hall j h1 (by omega)
+    have := hnd.length_le_of_subset hsub
+    simp [L] at this
+    omega
+
+/-- the loop keeps: the chosen names are pairwise different, none is a variable of the program, and
+    the names still to come from the first branch are not among them -/
+theorem freshGlobalsLoop_spec (p : Program) :
+    ∀ (is : List Nat) (nf : Nat) (acc : List String), is.Pairwise (· < ·) → (∀ i ∈ is, 1 ≤ i) →
+      acc.Nodup → (∀ g ∈ acc, g ∉ p.vars) →
+      (∀ i ∈ is, maxTakenGlobal p + i ≤ usizeMax → ("V" ++ toString (maxTakenGlobal p + i)) ∉ acc) →
+      (freshGlobalsLoop p.vars (maxTakenGlobal p) is nf acc).Nodup ∧
+      (∀ g ∈ freshGlobalsLoop p.vars (maxTakenGlobal p) is nf acc, g ∉ p.vars) ∧
+      (freshGlobalsLoop p.vars (maxTakenGlobal p) is nf acc).length = acc.length + is.length := by
+  intro is
+  induction is with
+  | nil => intro nf acc _ _ hnd hfr _; exact ⟨hnd, hfr, by simp [freshGlobalsLoop]⟩
+  | cons i is ih =>
+    intro nf acc hsorted hpos hnd hfr hnext
+    have hrest := (List.pairwise_cons.mp hsorted)
+    have hpos' : ∀ i' ∈ is, 1 ≤ i' := fun i' hi' => hpos i' (List.mem_cons_of_mem _ hi')
+    have hi1 : 1 ≤ i := hpos i List.mem_cons_self
+    simp only [freshGlobalsLoop]
+    split
+    · rename_i hfit
+      have hnew : ("V" ++ toString (maxTakenGlobal p + i)) ∉ p.vars := by
+        intro hmem
+        have := le_maxTakenGlobal p _ hmem _ (globalIndex_V (maxTakenGlobal p + i))
+        rw [if_pos hfit] at this
+        omega
+      -- `i ≥ 1` is not known here; handle `i = 0` through the hypothesis on `acc`
+      have hnotacc := hnext i List.mem_cons_self hfit
+      obtain ⟨h1, h2, h3⟩ := ih nf (acc ++ ["V" ++ toString (maxTakenGlobal p + i)]) hrest.2 hpos'
+        (by
+          rw [List.nodup_append]
+          refine ⟨hnd, by simp, ?_⟩
+          intro x hx y hy
+          simp only [List.mem_singleton] at hy
+          subst hy
+          exact fun e => hnotacc (e ▸ hx))
+        (by
+          intro g hg
+          rcases List.mem_append.mp hg with hg | hg
+          · exact hfr g hg
+          · simp only [List.mem_singleton] at hg; subst hg; exact hnew)
+        (by
+          intro i' hi' hfit' hmem
+          rcases List.mem_append.mp hmem with hmem | hmem
+          · exact hnext i' (List.mem_cons_of_mem _ hi') hfit' hmem
+          · simp only [List.mem_singleton] at hmem
+            have := vname_inj hmem
+            have := hrest.1 i' hi'
+            omega)
+      refine ⟨h1, h2, ?_⟩
+      rw [h3]; simp; omega
+    · rename_i hfit
+      have hfree := findFreeGlobal_spec (p.vars ++ acc) _ (nf + 1) (exists_free_global (p.vars ++ acc) (nf + 1))
+      simp only [List.mem_append, not_or] at hfree
+      obtain ⟨h1, h2, h3⟩ := ih _ (acc ++ ["V" ++ toString (findFreeGlobal (p.vars ++ acc) ((p.vars ++ acc).length + 1) (nf + 1))]) hrest.2 hpos'
+        (by
+          rw [List.nodup_append]
+          refine ⟨hnd, by simp, ?_⟩
+          intro x hx y hy
+          simp only [List.mem_singleton] at hy
+          subst hy
+          exact fun e => hfree.2 (e ▸ hx))
+        (by
+          intro g hg
+          rcases List.mem_append.mp hg with hg | hg
+          · exact hfr g hg
+          · simp only [List.mem_singleton] at hg; subst hg; exact hfree.1)
+        (by
+          intro i' hi' hfit' _
+          have := hrest.1 i' hi'
+          omega)
+      refine ⟨h1, h2, ?_⟩
+      rw [h3]; simp; omega
+
+theorem chooseFreshGlobals_spec (p : Program) (_hp : globalsPanic p = false) :
     (chooseFreshGlobals p).Nodup ∧ (∀ g ∈ chooseFreshGlobals p, g ∉ p.vars) ∧
       (chooseFreshGlobals p).length = maxHeadArity p := by
   unfold chooseFreshGlobals
-  refine ⟨?_, ?_, by simp⟩
-  · refine List.Pairwise.map _ (fun a b hab hc => hab ?_) List.nodup_range'
-    simp only [String.append_right_inj] at hc
-    have := Nat.repr_injective hc
-    omega
-  · intro g hg hmem
-    simp only [List.mem_map, List.mem_range'_1] at hg
-    obtain ⟨i, ⟨h1, h2⟩, rfl⟩ := hg
-    have hbound : maxTakenGlobal p + i ≤ usizeMax := by
-      unfold globalsPanic at hp
-      simp only [Bool.and_eq_false_imp, decide_eq_true_eq, decide_eq_false_iff_not, Nat.not_lt] at hp
-      have := hp (by omega)
-      omega
-    have := le_maxTakenGlobal p _ hmem _ (globalIndex_V (maxTakenGlobal p + i))
-    rw [if_pos hbound] at this
-    omega
+  obtain ⟨h1, h2, h3⟩ := freshGlobalsLoop_spec p (List.range' 1 (maxHeadArity p)) 0 []
+    List.pairwise_lt_range' (by
+      intro i hi
+      simp only [List.mem_range'_1] at hi
+      exact hi.1)
+    List.nodup_nil (fun _ h => absurd h List.not_mem_nil) (fun _ _ _ h => absurd h List.not_mem_nil)
+  exact ⟨h1, h2, by rw [h3]; simp⟩
 
 /-- **tau\* is correct**: an HT interpretation satisfies (at world `w`, under any assignment) every
     formula of `tau_star(Π)` iff it satisfies every rule of `Π` at `w` in the reference semantics. -/
